@@ -62,6 +62,12 @@ def vs_data():
         pkg = "vs_data_be" if be else "vs_data_le"
         open(os.path.join(OUT, pkg + ".xml"), "w").write(schema(pkg, t, m, sid=13, be=be))
 
+def vs_msg2_be():
+    """big-endian twin of the hand-written vs_msg2_le.xml"""
+    s = open(os.path.join(OUT, "vs_msg2_le.xml")).read()
+    s = s.replace('package="vs_msg2_le"', 'package="vs_msg2_be"').replace('byteOrder="littleEndian"', 'byteOrder="bigEndian"')
+    open(os.path.join(OUT, "vs_msg2_be.xml"), "w").write(s)
+
 if __name__ == "__main__":
-    vs_opt(); vs_dims(); vs_data()
+    vs_opt(); vs_dims(); vs_data(); vs_msg2_be()
     print("ok")
